@@ -47,7 +47,7 @@ func realMain() {
 			m := *schedMode
 			if m == "both" {
 				m = "sched"
-				if i%7 == 6 { // 7 is coprime to the number of scenarios: every scenario runs in both modes
+				if i%5 == 4 { // 5 is coprime to the number of scenarios: every scenario runs in both modes
 					m = "free"
 				}
 			}
